@@ -1411,6 +1411,10 @@ def _validate_patch_target(r: "Repo", repo_path: bytes, tree_path: bytes) -> byt
         verify_leading_dirs(tree_path, [], repo_path)
     except InvalidPathError:
         raise ValueError(f"refusing to write through symlink: {tree_path!r}")
+    if os.path.islink(fs_path):
+        # The target itself is a symlink: opening it would read and write
+        # whatever it points at (e.g. .git/config), not a file of the tree.
+        raise ValueError(f"refusing to write through symlink: {tree_path!r}")
     return fs_path
 
 
